@@ -230,7 +230,11 @@ IsHoldRet(m, ret) ==
   ELSE m
 PartialLine(m) == m.nb
 IsBusyRet(m, ret) ==
-  IF m.lost \/ ret < 0 THEN m
+  IF ret < 0 THEN m
+  ELSE IF m.lost THEN
+       \* the line tracker is exact even while the monitor is lost: a line whose LF has not been consumed is partially received
+       IF ret = S_OK /\ PartialLine(m) THEN [m EXCEPT !.bad = IF Len(@) < 12 THEN Append(@, [p |-> "C18", why |-> "is_busy says idle while a command line is partially received", at |-> m.n, sid |-> m.cfg.sid]) ELSE @]
+       ELSE m
   ELSE IF ret = S_OK /\ (PartialLine(m) \/ m.pend \/ m.H # {}) THEN AddBad(m, "C18", "is_busy says idle while work is in flight")
   ELSE IF ret # S_OK /\ m.idleOk /\ ~PartialLine(m) THEN AddBad(m, "C18", "is_busy says busy although quiescent")
   ELSE m
@@ -387,7 +391,9 @@ OnCmdC(m, e) ==
 
 \* handler of the event producer
 OnCmdE(m, e) ==
-  IF m.eph \notin {"rloop", "tloop"} THEN AddBad(m, "C13", <<"event handler invoked but no event is due", e.kind, e.c>>)
+  IF m.eph \notin {"rloop", "tloop"} THEN
+     \* a handler that has just returned a terminal code (its event is closing) and is invoked again: the code table (C10) as well as exactly-once (C13)
+     AddBad(m, IF Closing(m, e.c, CT_NONE) THEN "C10,C13" ELSE "C13", <<"event handler invoked but no event is due", e.kind, e.c>>)
   ELSE LET want == IF m.eph = "rloop" THEN "read" ELSE "test" IN
   IF e.c # m.ec \/ e.kind # want THEN AddBad(m, "C13", <<"event handler out of order", e.kind, e.c, "expected", want, m.ec>>)
   ELSE IF ~(e.data \in m.etxt /\ e.size = Len(e.data) /\ e.aux = m.cfg.ucap) THEN
@@ -536,7 +542,8 @@ MonSvc(m, rec) ==
       m2 == ConsumeRelease(FoldEvents(m1, evs))
       m3 == IF wasIdle /\ ~newInput /\ ~lockFailed /\ (active \/ rec.ret \notin {S_OK, S_MUTEX_UNLOCK}) /\ ~m2.lost
             THEN AddBad(m2, "C15", <<"cat_service had reported OK, but the repeated call was not idle", rec.ret>>) ELSE m2
-  IN IF rec.ret = S_OK THEN Quiescent(m3) ELSE IF lockFailed \/ rec.ret = S_MUTEX_UNLOCK THEN m3 ELSE [m3 EXCEPT !.idleOk = FALSE]
+      m4 == IF rec.f = "svc" /\ rec.ret = S_OK /\ newInput /\ ~m3.lost THEN AddBad(m3, "C15", "cat_service returned OK although this very call consumed input") ELSE m3
+  IN IF rec.ret = S_OK THEN Quiescent(m4) ELSE IF lockFailed \/ rec.ret = S_MUTEX_UNLOCK THEN m3 ELSE [m3 EXCEPT !.idleOk = FALSE]
 
 RECURSIVE QevFold(_, _, _)
 QevFold(m, bf, c) == IF c > Len(bf) THEN m
